@@ -9,12 +9,13 @@
 #include "refchain.h"
 #include "simnode.h"
 
+#include <functional>
 #include <memory>
 #include <set>
 
 namespace nodesim {
 
-enum ChainOp { OP_MINE = 0, OP_DELIVER, OP_HEADER, OP_INVALIDATE, OP_RECONSIDER, OP_RESTART, OP_FLUSH, OP_CLOCK, OP_CHECK_UTXO, OP_NCHAINOPS };
+enum ChainOp { OP_MINE = 0, OP_DELIVER, OP_HEADER, OP_INVALIDATE, OP_RECONSIDER, OP_RESTART, OP_FLUSH, OP_CLOCK, OP_CHECK_UTXO, OP_REORG, OP_NCHAINOPS };
 
 enum Defect {
     D_NONE = 0,
@@ -60,9 +61,17 @@ public:
     std::vector<char> delivered;           //!< per ref block: full block given to the node at least once
     std::vector<char> header_given;
     uint64_t cb_nonce{0};
+    int64_t start_time{0};
+    int reorgs{0};
+    std::function<void(NodeOpts&)> tweak_opts;              //!< engines adjust node options before the node starts
+    std::function<void(int flush_mode)> on_full_flush;      //!< called right after a forced full flush (or clean restart) returned
+    std::function<void()> on_node_started;                  //!< after every (re)start of the node
 
     ChainSim(sim::Ctx& c, ChainSimConfig cf) : ctx(c), cfg(cf) {}
     void Run();
+    void Setup();
+    void ExecOp(const sim::Op& op);
+    void Finish();
 
     // building blocks, also used by other engines
     void StartNode();
